@@ -139,9 +139,91 @@ def rand_shape(rng, depth=4):
     return [node(depth) for _ in range(rng.randint(1, 4))]
 
 
+def value_model(run, bd):
+    vlib.stage_specs(bd, ["ValuePipe.tla", "MCValuePipe.tla", "TraceValuePipe.tla"])
+    vlib.write_cfg(os.path.join(bd, "v.cfg"), constants=dict(OutFile='"exprs.ndjson"'), spec="Spec", invariants=["TwinExceptKnown", "Consistent"])
+    r = vlib.run_tlc(bd, "MCValuePipe", "v.cfg", workers=2, timeout=1200, jvm=vlib.JVM_BIG,
+                     extra=["-nowarning"])
+    run.add_model_run("ValuePipe: class table (twin relation except the known F10 classes, consistency of the case analysis); export of expression cases", r)
+    if not r.ok:
+        raise vlib.Infra("ValuePipe.tla: %s violated: the specification needs fixing" % r.violated)
+
+
 def run_c17(run, tier, wd, binary, replay):
-    raise vlib.Infra("not built yet")
+    import vp_lib as vl
+    run.level = "other"
+    bd = os.path.join(wd, "b")
+    os.makedirs(bd)
+    value_model(run, bd)
+    rng = random.Random(run.seed * 19 + 17)
+    cases = vl.twin_cases(rng, True)
+    if tier == "thorough":
+        cases = cases * 1       # the representative lists are the family; thorough adds nothing random for C17
+    if replay:
+        rec = json.load(open(replay))["replay"]["record"]
+        cases = [c for c in cases if c["class"] == rec["class"] and c["ftype"] == rec["ftype"]]
+    vlib.write_ndjson(os.path.join(bd, "in.ndjson"), cases)
+    p = vlib.run_harness(binary, ["values", "-in", "in.ndjson", "-out", "vt.ndjson"], cwd=bd)
+    if p.returncode != 0:
+        raise vlib.Infra("values harness failed: " + p.stderr[-800:])
+    lines = open(os.path.join(bd, "vt.ndjson")).readlines()
+    monitor_lines(run, bd, "TraceValuePipe", lines, {}, ["C17_TwinHolds", "C17_LiteralAsWritten", "C17_PropIsValue", "C09_NoPanic"],
+                  "real binding", lambda rec: "class %s into %s: prefix %s, value %s, prop %s, literal %s" % (
+                      rec.get("class"), rec.get("ftype"), rec.get("P"), rec.get("V"), rec.get("Q"), rec.get("L")))
+    # known finding F10: the cells where the value path is known to differ from the prefix path
+    known = {k["id"]: k for k in vlib.known_for("C17")}
+    seen_cells = set()
+    for ln in lines:
+        rec = json.loads(ln)
+        if rec["P"]["ok"] and not (rec["V"]["ok"] and rec["V"]["val"] == rec["P"]["val"]):
+            seen_cells.add((rec["class"], rec["ftype"]))
+    for k in known.values():
+        cells = {(c, ft) for c, fts in k["signature"]["cells"].items() for ft in fts}
+        hit = seen_cells & cells
+        if hit:
+            run.known(k, "%d of the listed (class, field type) cells still differ, e.g. %s" % (len(hit), sorted(hit)[0]))
+    for c in cases:
+        run.count_case([c["class"], c["ftype"], c["yaml"]], True)
+    run.sample(json.loads(lines[len(lines) // 2]))
+    run.cov["rule"] = ("cases = lexical value class (32 classes, 1-6 concrete representatives each) x field type (8); each bound by prefix, by "
+                       "placeholder, by prop and as a literal in four separate starts; all are non-trivial")
+    run.cov["explanation"] = ("ValuePipe.tla transcribes the first-match case analysis of FormatAny/ParseAny over lexical classes and predicts, per class "
+                              "and field type, whether the text round trip of the value path is the identity; TLC checks the table's consistency; every "
+                              "cell is executed on the real container with concrete representatives and judged by TraceValuePipe.tla. Magnitudes and "
+                              "precisions beyond the representatives are not decided (encode/decode fidelity over an unbounded domain is outside this technique).")
+    run.assumptions += ["'compatible field type' = the prefix path succeeds for that value",
+                        "the known-finding cells (F10) are excluded exactly as listed in known_findings.jsonl; any other differing cell is a violation"]
 
 
 def run_c18(run, tier, wd, binary, replay):
-    raise vlib.Infra("not built yet")
+    import vp_lib as vl
+    run.level = "other"
+    bd = os.path.join(wd, "b")
+    os.makedirs(bd)
+    value_model(run, bd)
+    rng = random.Random(run.seed * 23 + 18)
+    exprs = [json.loads(x) for x in open(os.path.join(bd, "exprs.ndjson"))]
+    if tier == "quick":
+        exprs = rng.sample(exprs, 2500)
+    cases = [dict(kind="expr", text=e["text"], cfg=e["cfg"], val=e["val"]) for e in exprs]
+    cases += vl.validate_cases(rng, 300 if tier == "quick" else 5000)
+    if replay:
+        cases = [json.load(open(replay))["replay"]["case"]]
+    vlib.write_ndjson(os.path.join(bd, "in.ndjson"), cases)
+    p = vlib.run_harness(binary, ["values", "-in", "in.ndjson", "-out", "vt.ndjson"], cwd=bd, timeout=1800)
+    if p.returncode != 0:
+        raise vlib.Infra("values harness failed: " + p.stderr[-800:])
+    lines = open(os.path.join(bd, "vt.ndjson")).readlines()
+    monitor_lines(run, bd, "TraceValuePipe", lines, {}, ["C18_ExprResult", "C18_ValidateIff", "C09_NoPanic"], "real binding",
+                  lambda rec: ("expression %r with %s: bound %s, expected %s" % (rec.get("text"), rec.get("cfg"), rec.get("got"), rec.get("want")))
+                  if rec["kind"] == "expr" else ("value %s with constraints %s: ok=%s" % (rec.get("x"), rec.get("cons"), rec.get("ok"))), chunk=5000)
+    for c in cases:
+        run.count_case(c, c["kind"] == "validate" or "${" in c.get("text", ""))
+    run.sample(json.loads(lines[7]))
+    run.sample(json.loads(lines[-1]))
+    run.cov["rule"] = ("expression cases = every tree up to depth 2 over + - * > == && ||, literals 0..3 / true / false and placeholders ${a} ${b} x 3 "
+                       "configurations, exported by TLC with the value TLA+ computes (ill-typed ones: error); validation cases = every value 0..3 x every "
+                       "single constraint, plus seeded combinations; non-trivial = has a placeholder inside the expression, or is a validation case")
+    run.cov["explanation"] = ("the stage order of orders.go is the pipeline of ValuePipe.tla; the expression fragment and the constraints are evaluated by TLA+ "
+                              "itself and compared with what the real container bound / whether start-up failed; the full expr / validator languages are out of scope")
+    run.assumptions += ["fully parenthesised expressions, integers and booleans only", "constraints required / min / max / eq on int fields"]
